@@ -247,7 +247,7 @@ var trackedFuncs = []tracked{
 	{"extractStreamPathAndExt", "service/streamapis.go", "", "extractStreamPathAndExt", filter{nil, re(`path\.Ext|Scan$`), re(`streamPath|ext`)}},
 	{"onStreamsRequest", "service/streamapis.go", "Service", "onStreamsRequest", filter{re(`.`), re(`onWebSocketRequest|extractStreamPathAndExt|ConsumeByHTTP|GetM3u8|GetTS|NotFound`), re(`streamPath|token`)}},
 	{"onWebSocketRequest", "service/streamapis.go", "Service", "onWebSocketRequest", filter{re(`.`), re(`TryUpgrade|OnAccept|ConsumeByWebsocket|extractStreamPathAndExt|Header\.Get|Close$`), re(`username|streamPath`)}},
-	{"authInterceptor", "service/apis.go", "Service", "authInterceptor", filter{re(`.`), re(`AccessCheck|Header\.Set|http\.Error|Query\(\)\.Get`), re(`token|username`)}},
+	{"authInterceptor", "service/apis.go", "Service", "authInterceptor", filter{re(`.`), re(`AccessCheck|Header\.\w+$|http\.Error|Query\(\)\.Get`), re(`token|username`)}},
 	{"roleInterceptor", "service/apis.go", "", "roleInterceptor", filter{re(`.`), re(`auth\.Get|Header\.Get|http\.Error`), re(`userName|^u$`)}},
 	{"onLogin", "service/apis.go", "Service", "onLogin", filter{re(`Username|Password|u == nil`), re(`auth\.Get|ValidatePassword|NewToken`), re(`^u$|token`)}},
 	{"onRefreshToken", "service/apis.go", "Service", "onRefreshToken", filter{re(`token`), re(`Refresh$|Query\(\)\.Get`), re(`token`)}},
